@@ -220,6 +220,7 @@ func runScript(st *Stack, sc Script, caseID int, baseline map[int]bool, grace ti
 				}
 			}
 			w.rec.log(Ev{Ev: "CbEnd", Op: op.id, Kind: op.kind, Msg: m, Digest: digest(payload), N: n})
+			poison(payload) // the callback owns the message (request bytes for ServeAsk): use that right
 			return n
 		}
 	}
